@@ -87,7 +87,7 @@ def rand_flags(rng, cname):
 
 def gen_world(seed, tier):
     rng = random.Random(H(seed, "c05"))
-    w = mr.gen_world(seed, CLASSES, want_constraints=0.3, node_p=0.15, tag="c05w")
+    w = mr.gen_world(seed, CLASSES, want_constraints=0.5, node_p=0.15, tag="c05w", length_cov_p=0.4)
     a = w["args"]
     # keep inside the documented assumptions of the safety optimisations
     a.pop("solution_weights_superset", None)
